@@ -101,7 +101,7 @@ def topval_table(ctx, rule, F):
 
 def clz_table(ctx, rule, F, T):
     """ENCODED_INDICES_BY_LEADING_ZEROS brackets every leading-zero class."""
-    I = need(ctx, rule, F, "length::ENCODED_INDICES_BY_LEADING_ZEROS", 8, "clz bracket table")
+    I = need(ctx, rule, F, "length::ENCODED_INDICES_BY_LEADING_ZEROS", F.usize_bytes, "clz bracket table")
     ctx.instance(rule)
     if I is None or T is None:
         return None
